@@ -115,6 +115,88 @@ func randomHistories(out *caseOut, tag string, cfg string, h tree.HashFn, salt i
 	}
 }
 
+// histories around chunk / power-of-two boundaries of list lengths: pops and appends that
+// cross from one bottom node to the next, at small and at huge limits
+func boundaryHistories(out *caseOut, cfg string, h tree.HashFn, salt int64, withSnaps bool) {
+	g := &gen{r: newRng(salt), noBool: true, maxElem: 12}
+	type spec struct {
+		ty  *Ty
+		per uint64
+	}
+	u8, u64 := &Ty{Kind: "u", N: 1}, &Ty{Kind: "u", N: 8}
+	pairT := &Ty{Kind: "cont", Fields: []*Ty{u64, u8}}
+	var specs []spec
+	for _, lim := range []uint64{256, 257, 512, 1 << 20} {
+		specs = append(specs, spec{&Ty{Kind: "bitlist", N: lim}, 256})
+	}
+	for _, lim := range []uint64{32, 33, 64, 1 << 20, 1 << 40} {
+		specs = append(specs, spec{&Ty{Kind: "list", Elem: u8, N: lim}, 32})
+	}
+	for _, lim := range []uint64{4, 5, 8, 1 << 32} {
+		specs = append(specs, spec{&Ty{Kind: "list", Elem: u64, N: lim}, 4})
+	}
+	for _, lim := range []uint64{2, 3, 4, 8, 1 << 40} {
+		specs = append(specs, spec{&Ty{Kind: "list", Elem: pairT, N: lim}, 2})
+	}
+	for _, sp := range specs {
+		for k := uint64(1); k <= 2; k++ {
+			for d := -1; d <= 1; d++ {
+				ln := int(sp.per*k) + d
+				if uint64(ln) > sp.ty.N || ln < 0 {
+					continue
+				}
+				var v *Val
+				if sp.ty.Kind == "bitlist" {
+					bits := make([]bool, ln)
+					for i := range bits {
+						bits[i] = g.r.Intn(3) != 0
+					}
+					if ln > 0 {
+						bits[ln-1] = true
+					}
+					if ln >= 256 {
+						bits[ln-256] = true
+					}
+					v = &Val{Kind: "bits", Bits: bits}
+				} else {
+					vs := make([]*Val, ln)
+					for i := range vs {
+						vs[i] = g.val(sp.ty.Elem)
+					}
+					v = &Val{Kind: "seq", Seq: vs}
+				}
+				et := sp.ty.Elem
+				if sp.ty.Kind == "bitlist" {
+					et = &Ty{Kind: "bool"}
+				}
+				lit := func() srcSpec { return srcSpec{kind: "lit", t: et, v: g.val(et)} }
+				scripts := [][]hop{
+					{{kind: "pop"}, {kind: "htr"}, {kind: "ser"}, {kind: "len"}, {kind: "append", src: lit()}, {kind: "htr"}, {kind: "ser"}},
+					{{kind: "append", src: lit()}, {kind: "htr"}, {kind: "pop"}, {kind: "htr"}, {kind: "ser"}, {kind: "pop"}, {kind: "pop"}, {kind: "htr"}, {kind: "ser"}, {kind: "len"}},
+					{{kind: "htr"}, {kind: "pop"}, {kind: "pop"}, {kind: "append", src: lit()}, {kind: "append", src: lit()}, {kind: "append", src: lit()}, {kind: "htr"}, {kind: "ser"}, {kind: "blen"}},
+				}
+				for _, sc := range scripts {
+					ops := append([]hop{}, sc...)
+					if withSnaps {
+						var o2 []hop
+						for _, o := range ops {
+							o2 = append(o2, hop{kind: "snap", h: 0}, o)
+						}
+						ops = o2
+					}
+					root, err := buildView(sp.ty, v)
+					if err != nil {
+						continue
+					}
+					s := &hstate{h: h, count: &hashCalls}
+					s.push(sp.ty, root)
+					histCase(out, "bound", cfg, sp.ty, v, "ctor", ops, runScript(s, ops))
+				}
+			}
+		}
+	}
+}
+
 func TestC04(t *testing.T) {
 	out := openOut(t, "C04")
 	defer out.close()
@@ -127,6 +209,7 @@ func TestC04(t *testing.T) {
 			if ci == 0 {
 				exhaustiveHistories(out, cfg, h, ml, nil)
 			}
+			boundaryHistories(out, cfg, h, int64(440+ci), false)
 			randomHistories(out, "rand", cfg, h, int64(400+ci), n, func(g *gen) *histGen { return &histGen{g: g, r: g.r} })
 		})
 	}
@@ -148,6 +231,7 @@ func TestC05(t *testing.T) {
 			}
 			return append(o2, hop{kind: "copy", h: 0}, hop{kind: "snap", h: 0})
 		})
+		boundaryHistories(out, "sha", h, 540, true)
 		randomHistories(out, "rand", "sha", h, 500, n, func(g *gen) *histGen { return &histGen{g: g, r: g.r, snaps: true} })
 	})
 }
@@ -189,6 +273,7 @@ func TestC06(t *testing.T) {
 			}
 			rec(nil)
 		}
+		boundaryHistories(out, "sha", h, 640, false)
 		randomHistories(out, "rand", "sha", h, 600, n, func(g *gen) *histGen { return &histGen{g: g, r: g.r, memos: true, snaps: true} })
 	})
 }
